@@ -75,7 +75,9 @@ def impl(case):
 
 # ------------------------------------------------------------------ model side
 def _tagged(stamps):
-    return "[" + "; ".join("(%s, %s)" % (cf(unhex(s)), cnat(k)) for k, s in enumerate(stamps)) + "]"
+    # tags 0..n-1 are produced inside Coq (unary nat LITERALS of size n cost O(n^2) to type-check)
+    lst = cflist(unhex(s) for s in stamps)
+    return "(let l := %s in combine l (List.seq 0 (List.length l)))" % lst
 
 
 def expr(case, out):
@@ -208,9 +210,13 @@ def random_cases(ctx):
     out = []
     n_cases = ctx.n(260, 1500)
     for k in range(n_cases):
-        big = (not ctx.quick) and k % 250 == 0
-        n1 = int(rng.integers(1000, 5000)) if big else int(rng.integers(1, ctx.n(120, 300)))
-        n2 = int(rng.integers(1000, 5000)) if big else int(rng.integers(1, ctx.n(120, 300)))
+        # long vectors (thorough): the model indexes with unary nat, so cost grows faster than n1*n2;
+        # 5000 x 50, 50 x 5000 and a few ~1500 x 1500 pairs keep the tier inside its budget
+        big = (not ctx.quick) and k % 100 == 0
+        n1 = int(rng.integers(1, ctx.n(120, 300)))
+        n2 = int(rng.integers(1, ctx.n(120, 300)))
+        if big:
+            n1, n2 = [(5000, 50), (50, 5000), (1500, 1400), (1200, 1600), (3000, 200)][(k // 100) % 5]
         mode = k % 6
         base = 1.5e9 if k % 4 == 0 else 0.0
         rate1 = float(rng.choice([0.01, 0.05, 0.1, 1.0]))
